@@ -48,6 +48,11 @@ theorem package_vars_written_at_construction_only : Facts.packageVarWriters =
     [("ethereum/eip712/encoding.go::aminoCodec", "SetEncodingConfig"),
      ("ethereum/eip712/encoding.go::protoCodec", "SetEncodingConfig")] := by decide
 
+/-- no function writes through a slice a KVStore handed out: such a slice is the store's own (cached, committed) copy, a
+    write through it bypasses the transaction's branch of the state and survives a failed message — memory of the process
+    that a restarted node or a replica does not share -/
+theorem store_slices_never_written_in_place : Facts.storeSlicesWrittenInPlace = [] := by decide
+
 /-- extensions are never registered after construction: the only function that calls `AddEVMExtensions` is the
     ERC20 registration helper, and nothing calls that -/
 theorem no_dynamic_extensions :
